@@ -834,3 +834,17 @@ v("c10-lexer-starts-at-location-offset", "C10", "OFFSET-OWNERS", LOC + "lexer.py
   "        self.line, self.line_start = 1, 0\n", "        self.line, self.line_start = source.location_offset.line, 1 - source.location_offset.column\n")
 v("c10-formatted-location-memoised", "C10", "CACHED-MUTABLE-RESULT", LOC + "location.py",
   "class SourceLocation(NamedTuple):", "from functools import lru_cache\n\n\n@lru_cache(maxsize=4096)\ndef _formatted(line: int, column: int) -> FormattedSourceLocation:\n    return {\"line\": line, \"column\": column}\n\n\nclass SourceLocation(NamedTuple):")
+
+# -- round 5: C11 ------------------------------------------------------------------------------------------
+v("c11-result-equal-to-node-not-recorded", "C11", "APPEND-CONDITIONS", L + "visitor.py",
+  "                elif result is not None:\n                    edits.append((key, result))\n", "                elif result is not None and result is not node:\n                    edits.append((key, result))\n")
+v("c11-rebuilt-node-not-recorded-after-replacement", "C11", "APPEND-CONDITIONS", L + "visitor.py",
+  "        if result is None and is_edited:\n            edits.append((key, node))\n", "        if result is None and is_edited:\n            if not edits or edits[-1][0] != key:\n                edits.append((key, node))\n")
+v("c11-root-test-by-ancestors", "C11", "ROOT-EXIT", L + "visitor.py",
+  "                        if not stack:\n                            break  # the root node itself was skipped\n", "                        if not ancestors:\n                            break  # the root node itself was skipped\n")
+v("c11-nested-parallel-flattened-and-kept", "C11", "PARALLEL-MEMBERS", L + "visitor.py",
+  "        self.visitors = visitors\n        self.skipping: list[Any] = [None] * len(visitors)\n",
+  "        flat: list[Visitor] = []\n        for visitor in visitors:\n            if isinstance(visitor, ParallelVisitor):\n                flat.extend(visitor.visitors)\n            flat.append(visitor)\n        self.visitors = flat\n        self.skipping: list[Any] = [None] * len(flat)\n")
+v("c11-parallel-members-copied", "C11", "PARALLEL-MEMBERS", L + "visitor.py",
+  "        self.visitors = visitors\n        self.skipping: list[Any] = [None] * len(visitors)\n",
+  "        self.visitors = tuple(visitors)\n        self.skipping: list[Any] = [None] * len(self.visitors)\n", expect="silent")
